@@ -274,7 +274,8 @@ def State.idleCount (s : State) : Nat := idleRegistered (cntOf s.pcs)
 def waitAllGuard (s : State) : Bool :=
   s.workerCount = 0 || (s.workerCount = s.idleCount && s.queue.length = 0)
 
-/-- exit condition of JoinAll's loop -/
+/-- exit condition of JoinAll's loop (snapshot under both locks). Each iteration of the loop also
+    re-asserts `workerKill = -1` (event `joinKill`) when a SetWorkerCount has overwritten it. -/
 def joinAllGuard (s : State) : Bool := s.workerCount = 0 && s.queue.length = 0
 
 /-- pool-internal events of worker `i`: what the goroutine can do on its own -/
